@@ -5,6 +5,9 @@ A run = the default (fault-free) schedule of a harness plus a tuple of disturban
 t    a virtual instant: a timer deadline discovered from the run itself, or that deadline -/+ eps
 pos  'pre'  : the action runs at the I/O position of the iteration at t (before timers due at t)
      'post' : after the timers due at t, in the same iteration
+     'pre+k' / 'post+k' (opt-in per harness, `extra_positions`): the same positions k loop iterations later at the
+              same instant - e.g. 'post+1' is "in the iteration in which a datagram sent by a timer of t is delivered,
+              after its delivery and before the callbacks its handling deferred"
 act  a property-specific action tuple
 Runs always go to the horizon.  Level k of the exploration holds every run with k disturbances.
 """
@@ -21,6 +24,7 @@ class DevSys:
     place_from = 0.0
     place_until = 3.0
     tail = 3.0  # the run continues this long after the last disturbance (at least to place_until)
+    extra_positions = ()
 
     def __init__(self, cfg):
         self.cfg = cfg
@@ -84,6 +88,10 @@ class DevSys:
         self.run_to(t)
         cb = functools.partial(self._do, tuple(act))
         self.before_action(dev)
+        if "+" in pos:
+            pos, n = pos.split("+")
+            for _ in range(int(n)):
+                self.loop.iterate()
         if pos == "pre":
             self.loop.settle(pre=[cb])
         else:
@@ -100,7 +108,7 @@ class DevSys:
         out = []
         lo = max(last_t, self.place_from)
         for w in sorted(loop.timer_instants):
-            for t, poss in ((w - EPS, ("pre",)), (w, ("pre", "post")), (w + EPS, ("pre",))):
+            for t, poss in ((w - EPS, ("pre",)), (w, ("pre", "post") + tuple(self.extra_positions)), (w + EPS, ("pre",))):
                 if t <= lo + r or t > self.place_until:
                     continue
                 for pos in poss:
